@@ -46,22 +46,22 @@ Proof. apply (RN_int 1). unfold small; cbn; lia. Qed.
 Lemma bpow_IZR e : 0 <= e -> bpow radix2 e = IZR (2 ^ e).
 Proof. intros H. rewrite <- IZR_Zpower by exact H. reflexivity. Qed.
 
-(* no overflow below 2^60 *)
-Lemma RN_abs_le60 x : (Rabs x <= IZR (2 ^ 60))%R -> (Rabs (RN x) <= IZR (2 ^ 60))%R.
+(* no overflow below 2^100 *)
+Lemma RN_abs_le100 x : (Rabs x <= IZR (2 ^ 100))%R -> (Rabs (RN x) <= IZR (2 ^ 100))%R.
 Proof.
-  intros H. rewrite <- (bpow_IZR 60) in * by lia.
+  intros H. rewrite <- (bpow_IZR 100) in * by lia.
   apply abs_round_le_generic; [apply fexp_correct; reflexivity|apply valid_rnd_round_mode| |exact H].
   apply generic_format_bpow. unfold fexp, emin, prec, emax. lia.
 Qed.
 
-Lemma RN_lt_emax x : (Rabs x <= IZR (2 ^ 60))%R -> Rlt_bool (Rabs (RN x)) (bpow radix2 emax) = true.
+Lemma RN_lt_emax x : (Rabs x <= IZR (2 ^ 100))%R -> Rlt_bool (Rabs (RN x)) (bpow radix2 emax) = true.
 Proof.
   intros H. apply Rlt_bool_true.
-  apply Rle_lt_trans with (1 := RN_abs_le60 x H).
-  rewrite <- (bpow_IZR 60) by lia. apply bpow_lt. unfold emax. lia.
+  apply Rle_lt_trans with (1 := RN_abs_le100 x H).
+  rewrite <- (bpow_IZR 100) by lia. apply bpow_lt. unfold emax. lia.
 Qed.
 
-Lemma freal_mul f g x y : freal f x -> freal g y -> (Rabs (x * y) <= IZR (2 ^ 60))%R ->
+Lemma freal_mul f g x y : freal f x -> freal g y -> (Rabs (x * y) <= IZR (2 ^ 100))%R ->
   freal (f * g)%float (RN (x * y)).
 Proof.
   intros [Ff Rf] [Fg Rg] S. unfold freal. rewrite mul_equiv.
@@ -70,7 +70,7 @@ Proof.
   destruct C as (C1 & C2 & _). rewrite Ff, Fg in C2. split; assumption.
 Qed.
 
-Lemma freal_add f g x y : freal f x -> freal g y -> (Rabs (x + y) <= IZR (2 ^ 60))%R ->
+Lemma freal_add f g x y : freal f x -> freal g y -> (Rabs (x + y) <= IZR (2 ^ 100))%R ->
   freal (f + g)%float (RN (x + y)).
 Proof.
   intros [Ff Rf] [Fg Rg] S. unfold freal. rewrite add_equiv.
@@ -79,7 +79,7 @@ Proof.
   destruct C as (C1 & C2 & _). split; assumption.
 Qed.
 
-Lemma freal_div f g x y : freal f x -> freal g y -> y <> 0%R -> (Rabs (x / y) <= IZR (2 ^ 60))%R ->
+Lemma freal_div f g x y : freal f x -> freal g y -> y <> 0%R -> (Rabs (x / y) <= IZR (2 ^ 100))%R ->
   freal (f / g)%float (RN (x / y)).
 Proof.
   intros [Ff Rf] [Fg Rg] NZ S. unfold freal. rewrite div_equiv.
